@@ -1,6 +1,6 @@
 (** Observations of the real server (harness/p9: c07 and c16 test files) against the lock model
     instantiated from the generated table, evaluated by vm_compute in coq/cases/. *)
-From Coq Require Import String List Bool Arith Ascii.
+From Coq Require Import String List Bool Arith Ascii NArith.
 From P9V Require Import Locks.Sym gen.LockGen Locks.Tables.
 Import ListNotations.
 Open Scope string_scope.
@@ -11,15 +11,19 @@ Record rq := mkRq {
   q_names : list (string * string);         (* symbolic name -> entry name *)
   q_conn : string; q_fid : string;          (* connection, identity of the target fidRef *)
   q_node : list string;                     (* node the observed backend call acts on *)
-  q_entry : option (list string) }.         (* UnlinkAt: node of the entry *)
+  q_entry : option (list string);           (* UnlinkAt: node of the entry *)
+  q_probe : nat * nat * nat }.              (* TryLock probes from inside the call: renameMu, opMu of the node, opMu of the entry;
+                                               0 free, 1 read-held, 2 write-held, 3 not determined *)
 
-Record ev := mkEv { e_enter : bool; e_id : nat; e_m : string; e_node : string; e_entry : string }.
+(** one event of the backend monitor; ids, nodes (path#inode) and handles are numbered by the driver (binary N) *)
+Record ev := mkEv { e_enter : bool; e_id : N; e_m : string; e_node : N; e_entry : N; e_h : N }.
 
 Inductive lcase :=
 | CRv (a b : rq) (entered bdone : bool) (opens : nat)
 | CLog (events : list ev)
-| CIso (client : nat) (concurrent alone : list nat)
-| CAnswered (issued answered : nat) (shutdown : bool).
+| CIso (client : nat) (concurrent alone : list N)
+| CAnswered (issued answered : N) (shutdown : bool)
+| CProbe (answered : bool).
 
 (** ** instantiating symbolic locks for one request *)
 Fixpoint base_name (s : string) : string :=
@@ -100,38 +104,57 @@ Definition may_enter (a b : rq) : option bool :=
   | _, _ => None
   end.
 
+(** the table's claim about the locks around a call against what TryLock/TryRLock saw from inside it *)
+Definition mode_of (h : list (slock * bool)) (l : slock) : nat := if hasW h l then 2 else if has h l then 1 else 0.
+Definition probe_ok (claim seen : nat) : bool := Nat.eqb seen 3 || Nat.eqb claim seen.
+Definition probes_agree (q : rq) : bool :=
+  match site_of q with
+  | Some st =>
+      let h := eheld st in
+      let '(pr, pn, pe) := q_probe q in
+      probe_ok (mode_of h SRename) pr && probe_ok (mode_of h (SOp (match s_kind st with KCall _ r _ => r | _ => NTree end))) pn &&
+      match s_kind st with KCall _ _ (Some e) => probe_ok (mode_of h (SOp e)) pe | _ => true end
+  | None => false
+  end.
+
 (** ** the documented contract on concrete calls (independent of the lock tables) *)
 Definition opt_path_is (o : option (list string)) (p : list string) : bool :=
   match o with Some e => path_eqb e p | None => false end.
 
-Definition doc_conflict (ma mb : string) (na nb : list string) (ea eb : option (list string)) : bool :=
+(** [same]: both calls act on one node; [ea_nb]: the first call's UnlinkAt entry is the second's node; [eb_na]: vice versa *)
+Definition doc_conflict_b (ma mb : string) (same ea_nb eb_na : bool) : bool :=
   match class_of ma, class_of mb with
   | CGlobal, (CRead | CWrite | CGlobal) => true
   | (CRead | CWrite), CGlobal => true
-  | CWrite, CRead => path_eqb na nb || opt_path_is ea nb
-  | CWrite, CWrite => path_eqb na nb || opt_path_is ea nb || opt_path_is eb na
-  | CRead, CWrite => path_eqb na nb || opt_path_is eb na
+  | CWrite, CRead => same || ea_nb
+  | CWrite, CWrite => same || ea_nb || eb_na
+  | CRead, CWrite => same || eb_na
   | _, _ => false
   end.
 
-(** the overlap monitor's log: no call enters while a conflicting one is in progress *)
-Definition ev_entry (e : ev) : option (list string) :=
-  if String.eqb (e_m e) "UnlinkAt" then Some [e_entry e] else None.
+Definition doc_conflict (ma mb : string) (na nb : list string) (ea eb : option (list string)) : bool :=
+  doc_conflict_b ma mb (path_eqb na nb) (opt_path_is ea nb) (opt_path_is eb na).
 
-Fixpoint log_ok (active : list ev) (l : list ev) : bool :=
+(** the overlap monitor's log: no call enters while a conflicting one is in progress; and (File
+    lifecycle, shared reference counts) Close starts once per File and nothing starts on a File after it *)
+Definition ev_entry_is (a e : ev) : bool :=
+  String.eqb (e_m a) "UnlinkAt" && negb (N.eqb (e_entry a) 0) && N.eqb (e_entry a) (e_node e).
+
+Fixpoint log_ok (active : list ev) (closing : list N) (l : list ev) : bool :=
   match l with
   | [] => true
   | e :: r =>
       if e_enter e
-      then forallb (fun a => negb (doc_conflict (e_m a) (e_m e) [e_node a] [e_node e] (ev_entry a) (ev_entry e))) active
-           && log_ok (e :: active) r
-      else log_ok (filter (fun a => negb (Nat.eqb (e_id a) (e_id e))) active) r
+      then forallb (fun a => negb (doc_conflict_b (e_m a) (e_m e) (N.eqb (e_node a) (e_node e)) (ev_entry_is a e) (ev_entry_is e a))) active
+           && negb (existsb (N.eqb (e_h e)) closing)
+           && log_ok (e :: active) (if String.eqb (e_m e) "Close" then e_h e :: closing else closing) r
+      else log_ok (filter (fun a => negb (N.eqb (e_id a) (e_id e))) active) closing r
   end.
 
-Fixpoint nats_eqb (a b : list nat) : bool :=
+Fixpoint nats_eqb (a b : list N) : bool :=
   match a, b with
   | [], [] => true
-  | x :: a', y :: b' => Nat.eqb x y && nats_eqb a' b'
+  | x :: a', y :: b' => N.eqb x y && nats_eqb a' b'
   | _, _ => false
   end.
 
@@ -139,6 +162,7 @@ Fixpoint nats_eqb (a b : list nat) : bool :=
 Definition agrees (c : lcase) : bool :=
   match c with
   | CRv a b entered bdone _ =>
+      probes_agree a &&
       match may_enter a b with
       | Some m => if negb entered && bdone then true      (* b returned without making the call: nothing observed *)
                   else Bool.eqb m entered
@@ -153,9 +177,10 @@ Definition property_holds (c : lcase) : bool :=
   | CRv a b entered _ opens =>
       (negb entered || negb (doc_conflict (q_method a) (q_method b) (q_node a) (q_node b) (q_entry a) (q_entry b)))
       && Nat.leb opens 1
-  | CLog events => log_ok [] events
+  | CLog events => log_ok [] [] events
   | CIso _ conc alone => nats_eqb conc alone
-  | CAnswered issued answered shutdown => Nat.eqb issued answered && shutdown
+  | CAnswered issued answered shutdown => N.eqb issued answered && shutdown
+  | CProbe answered => answered
   end.
 
 Fixpoint failing (f : lcase -> bool) (i : nat) (l : list lcase) : list nat :=
